@@ -616,10 +616,15 @@ fn build_fault(fault: &str, x: u32, sub: u32) -> Option<(Vec<u8>, Option<u8>, Ve
                 [&[0xc2u8, 0x20][..], &gen::consistent_data_body(0xc220, &[1, 2, 3], 1)].concat(),
             ];
             let t = templates.get((sub % 4) as usize)?;
-            let optsel = [Some(spec::OPT_STRICT), Some(spec::OPT_VERSION), None, Some(spec::OPT_VERSION | spec::OPT_UNUSED)];
+            let optsel = [Some(spec::OPT_STRICT), Some(spec::OPT_VERSION), None, Some(spec::OPT_VERSION | spec::OPT_UNUSED), Some(spec::OPT_VERSION), None];
             let opts = *optsel.get((sub / 4) as usize)?;
             let mut b = t.clone();
             b[1] = (b[1] & 0x0f) | ((x as u8) << 4);
+            if sub / 4 >= 4 {
+                // reserved header bits set while only the version is being validated
+                b[1] |= 0x0f;
+                b[0] |= 0x2c;
+            }
             Some((b, opts, vec![DecodeError::InvalidVersion(x as u8)], false))
         }
         "unknown-attr" => {
@@ -847,7 +852,7 @@ fn check_render(ctx: &mut Ctx, x: u16) {
 fn run_c20(ctx: &mut Ctx) {
     // (fault, x range, sub range)
     let plan: [(&str, u32, u32, &str); 8] = [
-        ("version", 16, 16, "fault-version"),
+        ("version", 16, 24, "fault-version"),
         ("unknown-attr", 65536, 2, "fault-unknown-attr"),
         ("message-type", 65536, 2, "fault-message-type"),
         ("vendor", 65536, 2, "fault-vendor"),
